@@ -49,7 +49,7 @@ ASSUMPTIONS = [
 MIN_NONTRIVIAL = {"quick": 300, "thorough": 3000}
 REQUIRED_COUNTERS = {"roundtrip.entries": 1000, "fault.audit.fired": 20, "fault.line.fired": 50,
                      "fault.write.fired": 50, "kill.points": 5, "corrupt.cases": 100,
-                     "restart.runs": 2, "find.with_cache": 10}
+                     "restart.runs": 2, "restart.reset_runs": 1, "find.with_cache": 10}
 SHARD_TIMEOUT = {"quick": 900, "thorough": 7200}
 
 BOUNDARY_TIMES = [
@@ -329,6 +329,9 @@ elif mode == "atexit":      # constructor registers the save; exit by the given 
     fs = c15.new_fileset(cache=cache)
     c15.fill(fs, c15.deser(json.load(open(rows))))
     route = sys.argv[4]
+    if len(sys.argv) > 5:   # the live object drops its cache, then caches other entries
+        fs.reset_cache()
+        c15.fill(fs, c15.deser(json.load(open(sys.argv[5]))))
     if route == "exception":
         raise RuntimeError("uncaught")
     if route == "sysexit":
@@ -375,25 +378,38 @@ def dump_fresh(root, cache):
     return {"entries": None, "warnings": [], "exception": "child died: " + r.stderr[-500:]}
 
 
-def restart_case(rec, rng):
+def restart_case(rec, rng, reset=None):
     root = scratch_dir("c15r")
     try:
         cache = os.path.join(root, "cache.json")
         gen1 = gen_entries(rng, rng.choice([1, 5, 60]))
         gen2 = gen_entries(rng, rng.choice([1, 5, 60]))
+        if reset is None:
+            reset = rng.random() < 0.5
+        gen3 = gen_entries(rng, rng.choice([1, 5, 60])) if reset else None
         for g, route in ((gen1, "normal"), (gen2, rng.choice(["exception", "sysexit"]))):
             rows = os.path.join(root, "rows.json")
             json.dump(ser(g), open(rows, "w"))
-            r = child(root, "atexit", cache, rows, route)
+            extra = []
+            if reset and g is gen2:
+                # second run: loads gen1 from the file, caches gen2, reset_cache(), caches gen3, exits
+                rows3 = os.path.join(root, "rows3.json")
+                json.dump(ser(gen3), open(rows3, "w"))
+                extra = [rows3]
+                rec.count("restart.reset_runs")
+            r = child(root, "atexit", cache, rows, route, *extra)
             rec.ev()
             rec.count("restart.runs")
             if r is None:
                 rec.inconc("restart child timed out")
                 return
         d = dump_fresh(root, cache)
-        want = {e["path"]: e for e in gen1}
-        want.update({e["path"]: e for e in gen2})
-        case = {"kind": "restart", "gen1": ser(gen1)[:5], "gen2": ser(gen2)[:5]}
+        if reset:
+            want = {e["path"]: e for e in gen3}
+        else:
+            want = {e["path"]: e for e in gen1}
+            want.update({e["path"]: e for e in gen2})
+        case = {"kind": "restart", "reset": reset, "gen1": ser(gen1)[:5], "gen2": ser(gen2)[:5]}
         if d is None or d["exception"] or d["entries"] is None:
             rec.violation("cache-restart", case, {"dump": d})
             return
@@ -403,7 +419,7 @@ def restart_case(rec, rng):
             rec.violation("cache-restart", case,
                           {"n_got": len(got), "n_want": len(exp), "warnings": d["warnings"][:2]})
         else:
-            rec.nontriv(["restart"], [ser(gen1)[:3], ser(gen2)[:3]])
+            rec.nontriv(["restart", reset], [ser(gen1)[:3], ser(gen2)[:3]])
     finally:
         shutil.rmtree(root, ignore_errors=True)
 
@@ -845,8 +861,8 @@ def run_shard(spec, rec):
                 rec.sample({"roundtrip": ser(entries)[:3], "n": n})
             if i % 8 == 0:
                 find_case(rec, rng)
-        if spec["shard"] < 2:
-            restart_case(rec, rng)
+        for k in range(1 if spec["n"] <= 40 else 12):
+            restart_case(rec, rng, reset=(spec["shard"] + k) % 2 == 1)
     elif kind == "faults":
         for _ in range(spec["n"]):
             fault_cases(rec, rng)
@@ -869,6 +885,6 @@ def replay(case, rec):
     elif k == "kill":
         kill_cases(rec, rng, {"seed": case["seed"], "shard": 0, "of": 1, "n": 0})
     elif k == "restart":
-        restart_case(rec, rng)
+        restart_case(rec, rng, reset=case.get("reset"))
     elif k == "find":
         find_case(rec, rng)
